@@ -1276,6 +1276,45 @@ where
 	}
 }
 
+/// The first `id` member of a JSON object that holds an ID the library can represent (null, an unsigned integer or a
+/// string), if there is one. A member that occurs twice is looked at both times.
+fn representable_id(json: &[u8]) -> Option<Id<'static>> {
+	struct AnyId(Option<Id<'static>>);
+
+	impl<'de> serde::Deserialize<'de> for AnyId {
+		fn deserialize<D: serde::Deserializer<'de>>(deserializer: D) -> Result<Self, D::Error> {
+			struct Visitor;
+
+			impl<'de> serde::de::Visitor<'de> for Visitor {
+				type Value = AnyId;
+
+				fn expecting(&self, f: &mut std::fmt::Formatter) -> std::fmt::Result {
+					f.write_str("a JSON object")
+				}
+
+				fn visit_map<A: serde::de::MapAccess<'de>>(self, mut map: A) -> Result<AnyId, A::Error> {
+					let mut found = None;
+					while let Some(key) = map.next_key::<std::borrow::Cow<'de, str>>()? {
+						if key == "id" {
+							let raw: &JsonRawValue = map.next_value()?;
+							if found.is_none() {
+								found = serde_json::from_str::<Id>(raw.get()).ok().map(Id::into_owned);
+							}
+						} else {
+							map.next_value::<serde::de::IgnoredAny>()?;
+						}
+					}
+					Ok(AnyId(found))
+				}
+			}
+
+			deserializer.deserialize_map(Visitor)
+		}
+	}
+
+	serde_json::from_slice::<AnyId>(json).ok().and_then(|id| id.0)
+}
+
 pub(crate) async fn handle_rpc_call<S>(
 	body: &[u8],
 	is_single: bool,
@@ -1295,7 +1334,12 @@ where
 		if let Ok(req) = deserialize_with_ext::call::from_slice(body, &extensions) {
 			rpc_service.call(req).await
 		} else if let Ok(notif) = deserialize_with_ext::notif::from_slice::<Notif>(body, &extensions) {
-			rpc_service.notification(notif).await
+			// A notification has no ID. The notification parser ignores members it doesn't know, so an `id` member
+			// that made the request parser give up (it occurs twice) must not turn the message into a notification.
+			match representable_id(body) {
+				Some(id) => MethodResponse::error(id, ErrorObject::from(ErrorCode::InvalidRequest)),
+				None => rpc_service.notification(notif).await,
+			}
 		} else {
 			let (id, code) = prepare_error(body);
 			MethodResponse::error(id, ErrorObject::from(code))
@@ -1330,7 +1374,11 @@ where
 				} else if let Ok(req) = deserialize_with_ext::call::from_str(call.get(), &extensions) {
 					batch.push(Ok(BatchEntry::Call(req)));
 				} else if let Ok(notif) = deserialize_with_ext::notif::from_str::<Notif>(call.get(), &extensions) {
-					batch.push(Ok(BatchEntry::Notification(notif)));
+					// (see the single message above: an `id` member that occurs twice)
+					match representable_id(call.get().as_bytes()) {
+						Some(id) => batch.push(Err(BatchEntryErr::new(id, ErrorCode::InvalidRequest.into()))),
+						None => batch.push(Ok(BatchEntry::Notification(notif))),
+					}
 				} else {
 					let id = match serde_json::from_str::<jsonrpsee_types::InvalidRequest>(call.get()) {
 						Ok(err) => err.id,
